@@ -62,12 +62,13 @@ SAFE_BUILTINS = {
     "len": len, "range": range, "int": int, "str": str, "abs": abs, "min": min, "max": max, "list": list,
     "dict": dict, "tuple": tuple, "sorted": sorted, "enumerate": enumerate, "zip": zip, "bool": bool,
     "hex": hex, "set": set, "frozenset": frozenset, "sum": sum, "reversed": reversed, "float": float, "bytes": bytes,
-    "bytearray": bytearray, "any": any, "all": all, "round": round,
+    "bytearray": bytearray, "any": any, "all": all, "round": round, "slice": slice, "divmod": divmod,
 }
 SAFE_METHODS = {
     list: {"append", "extend", "index", "count", "copy", "insert", "pop"},
     dict: {"items", "keys", "values", "get", "copy", "update", "setdefault"},
-    str: {"join", "format", "lower", "upper", "split", "startswith", "endswith", "strip", "replace", "rstrip", "lstrip"},
+    str: {"join", "format", "lower", "upper", "split", "startswith", "endswith", "strip", "replace", "rstrip", "lstrip", "splitlines", "find", "rfind", "index", "count", "partition", "rpartition",
+          "isdigit", "isascii", "encode", "casefold", "rsplit", "isalpha", "isspace", "isalnum", "isprintable", "removeprefix", "removesuffix", "zfill", "isupper", "islower", "rindex", "isdecimal"},
     tuple: {"index", "count"},
     set: {"add", "update"},
     bytes: {"hex", "startswith", "endswith", "find", "rfind", "index", "count", "decode", "isascii", "strip", "lstrip", "rstrip", "split", "upper", "lower"},
@@ -154,6 +155,17 @@ class ConstEval:
             env[tgt.id] = val
         elif isinstance(tgt, (ast.Tuple, ast.List)):
             vals = list(val)
+            stars = [i for i, t in enumerate(tgt.elts) if isinstance(t, ast.Starred)]
+            if len(stars) == 1 and len(vals) >= len(tgt.elts) - 1:
+                i = stars[0]
+                tail = len(tgt.elts) - 1 - i
+                mid = vals[i:len(vals) - tail]
+                for t, v in zip(tgt.elts[:i], vals[:i]):
+                    self.assign(t, v, env, mod)
+                self.assign(tgt.elts[i].value, list(mid), env, mod)
+                for t, v in zip(tgt.elts[i + 1:], vals[len(vals) - tail:]):
+                    self.assign(t, v, env, mod)
+                return
             if len(vals) != len(tgt.elts):
                 raise NotConstant("unpack arity")
             for t, v in zip(tgt.elts, vals):
